@@ -1252,10 +1252,10 @@ func ruleR18_6(c *Check) {
 				// only after the previous block was exhausted (err == io.EOF) and when idx is a block
 				eof := false
 				for _, g := range gs {
-					if w.mentions(g.Cond, w.Obj("io.EOF")) && g.Val {
-						if be, ok := unparen(g.Cond).(*ast.BinaryExpr); ok && be.Op == token.EQL {
-							eof = true
-						}
+					// err == io.EOF holds here, however it is spelled (enclosing if, or an earlier `if err != io.EOF { return }`)
+					isEOF := func(e ast.Expr) bool { return w.mentions(e, w.Obj("io.EOF")) }
+					if eqOf(g, true, func(e ast.Expr) bool { return !isEOF(e) }, isEOF) {
+						eof = true
 					}
 				}
 				op, g := w.guardRel(gs, isIdx, func(e ast.Expr) bool { return isCallNamed(w, w.from(e), "offsetsLength") }, false)
@@ -1297,8 +1297,8 @@ func ruleR18_6(c *Check) {
 			callee string
 			want   int
 		}{{d.fwd, 0}, {d.bwd, 1}} {
-			sites := f.Sites(selCallName(w, dir.callee))
-			r.Check(len(sites) == 1, f, "calls "+dir.callee+" once", nil, "expected one call of "+dir.callee)
+			sites := f.Sites(selCall(w.orForwarded(w.Func(dir.callee))...))
+			r.Check(len(sites) >= 1, f, "calls "+dir.callee, nil, "no call of "+dir.callee+" (or of what it forwards to)")
 			for _, s := range sites {
 				r.Check(w.bitGuard(w.Guards(f, s), rev) == dir.want, f, "direction chosen by the REVERSED bit", s, dir.callee+" is not called exactly when REVERSED is "+map[int]string{0: "clear", 1: "set"}[dir.want])
 			}
@@ -1355,10 +1355,11 @@ func ruleR18_6(c *Check) {
 	cn := w.F("table.ConcatIterator.Next")
 	idxF := w.Field("table.ConcatIterator.idx")
 	up, down := false, false
-	for _, s := range cn.Sites(selCallName(w, "table.ConcatIterator.setIdx")) {
+	for _, o := range cn.SitesInl(selCallName(w, "table.ConcatIterator.setIdx")) {
+		s := o.Node
 		call := s.(*ast.CallExpr)
-		a, b, okl := w.linear(cn, call.Args[0], w.isField(idxF), 0)
-		dir := w.bitGuard(w.Guards(cn, s), rev)
+		a, b, okl := w.linear(o.SiteFn, call.Args[0], w.isField(idxF), 0)
+		dir := w.bitGuard(w.Guards(o.SiteFn, s), rev)
 		if okl && a == 1 && b == 1 {
 			r.Check(dir == 0, cn, "forward: next table", s, "idx+1 is not taken exactly when REVERSED is clear")
 			up = dir == 0
